@@ -2,6 +2,8 @@ SPECIFICATION Spec
 CONSTANTS
   Wells <- MCWells
   InputOrder <- MCInput
+  FreeOrder <- NoWells
+  FreeCells <- NoWells
   NK = 2
   MaxOps = 3
   MaxSteps = 2
